@@ -181,8 +181,14 @@ fn bag(rows: &[Row]) -> std::collections::BTreeMap<String, i64> {
     m
 }
 
-fn where_check(db: &Db, prefix: &str, pred: &str, suffix: &str) -> String {
+fn where_check(db: &Db, classes: &str, prefix: &str, pred: &str, suffix: &str) -> String {
     let base = run_query(db, &format!("{} {}", prefix, suffix), unlimited()).0;
+    // the class string was computed for the graph of this case: a line replayed without its
+    // setup lines (shrinking) is not a test of anything
+    let expected = classes.chars().filter(|c| *c != '-').count();
+    if !matches!(&base, Outcome::Rows(r) if r.len() == expected) {
+        return "stale".into();
+    }
     let t = run_query(db, &format!("{} WHERE {} {}", prefix, pred, suffix), unlimited()).0;
     let f = run_query(db, &format!("{} WHERE NOT ({}) {}", prefix, pred, suffix), unlimited()).0;
     let n = run_query(db, &format!("{} WHERE ({}) IS NULL {}", prefix, pred, suffix), unlimited()).0;
@@ -192,7 +198,9 @@ fn where_check(db: &Db, prefix: &str, pred: &str, suffix: &str) -> String {
     };
     let detail = format!("base={} t={} f={} n={}", cnt(&base), cnt(&t), cnt(&f), cnt(&n));
     let (Outcome::Rows(b), Outcome::Rows(t), Outcome::Rows(f), Outcome::Rows(n)) = (&base, &t, &f, &n) else {
-        return format!("err | {}", detail);
+        // WHICH of the three fails depends on the evaluation order the planner chose (a conjunct
+        // that is filtered first can keep a failing conjunct from being evaluated): not compared
+        return format!("err | base={}", cnt(&base));
     };
     let mut diff = bag(b);
     for part in [t, f, n] {
@@ -576,7 +584,7 @@ impl State for S {
                 if s.is_empty() { "ABORT".into() } else { s }
             }
             "w" if parts.len() >= 4 => {
-                where_check(&self.db, &parts[1].join(" "), &parts[2].join(" "), &parts[3].join(" "))
+                where_check(&self.db, ws[1], &parts[1].join(" "), &parts[2].join(" "), &parts[3].join(" "))
             }
             // debugging aids (never generated)
             "show" => match run_query(&self.db, &last, unlimited()).0 {
